@@ -35,7 +35,7 @@ ASCII_S = ["abc", "Hello World", "a", "MiXeD cAsE", "x1y2", "  pad  ", "tab\tsep
            "one two  three", "ALLCAPS", "q", "", ""]      # the empty string is an argument like any other
 UNI_S = ["éàü", "αβγ", "Жук", "日本語", "éa", "naïve café", " nb ", "　wide　", "ÀÉÎ", "straße",
          "ǅ x", "ﬁn", "ı", "Ωmega"]
-NUM_S = ["0", "5", "-3", "2.5", "100", "255", "1024", "1000", "1000000", "0.001", "0.125", "9223372036854775807", "9223372036854775808", "-0.5", "1e3", "16", "8", "1",
+NUM_S = ["0", "5", "-3", "2.5", "100", "255", "1024", "1000", "1000000", "0.001", "0.125", "-9223372036854775808", "-9223372036854775809", "9223372036854775807", "9223372036854775808", "-0.5", "1e3", "16", "8", "1",
          # arguments of the wrong kind: the documented outcome is an empty value (or a status-2 diagnostic), never a crash
          "abc", "1x", "5 ", "0x10"]
 DATE_S = ["2020-02-29", "2021-02-28", "2020-12-31", "2021-01-01", "2020-03-01 00:00:00", "2019-12-31 23:59:59",
@@ -391,6 +391,13 @@ def check(case):
                 try:
                     want = ref(e, ent)
                 except DC:
+                    # weaker predicate for ABS outside the range asserted digit by digit: never below zero, never a crash
+                    if e[0] == "call" and e[1] == "abs":
+                        try:
+                            if float(cell) < 0:
+                                out.add("C16/abs/negative", expr=t, entry=ent.name, cell=cell)
+                        except ValueError:
+                            pass
                     # weaker predicate for SUBSTR outside the asserted range: still a substring of its argument
                     if e[0] == "call" and e[1] == "substr":
                         try:
